@@ -1578,6 +1578,8 @@ def oracle_query(q, got, recs, fcs):
     if kind in ("wf", "wfev"):
         evs = recs[fid]["events"][2]
         i = q[3]
+        if -n <= i < 0:
+            i += n                      # event_id counts from the end like f[i]
         if not (0 <= i < n):
             return ""
         w = evs[i][TABLES.index("W")]
@@ -1588,13 +1590,13 @@ def oracle_query(q, got, recs, fcs):
             if w == "NA":
                 return "" if got[0] == "err" else "reader.get_waveforms(event_id=%d) returns data although no waveforms are stored" % i
             flat = [x for r in rows for x in r]
-            return "" if got == ["ok", flat] else "reader.get_waveforms(event_id=%d) gives %s, the event's own waveforms are %s" % (i, json.dumps(got)[:160], rows)
+            return "" if got == ["ok", flat] else "reader.get_waveforms(event_id=%d) gives %s, the waveforms of that event (f[%d], sequential pass) are %s" % (q[3], json.dumps(got)[:160], q[3], rows)
         k = q[4]
         if 0 <= k < len(rows):
-            return "" if got == ["ok", rows[k]] else "reader.get_waveforms(event_id=%d, waveform_type=%r) gives %s, the event's waveform %d is %s" % (i, k, json.dumps(got)[:160], k, rows[k])
+            return "" if got == ["ok", rows[k]] else "reader.get_waveforms(event_id=%d, waveform_type=%r) gives %s, waveform %d of that event (f[%d], sequential pass) is %s" % (q[3], k, json.dumps(got)[:160], k, q[3], rows[k])
         if k >= len(rows):
             return "" if got[0] == "err" else ("reader.get_waveforms(event_id=%d, waveform_type=%r) returns %s although event %d has only %d waveform rows "
-                                               "(data of another event instead of nothing)" % (i, k, json.dumps(got[1])[:120], i, len(rows)))
+                                               "(data of another event instead of nothing)" % (q[3], k, json.dumps(got[1])[:120], i, len(rows)))
         return ""
     want = None
     idxs = None
